@@ -1,13 +1,13 @@
 (** * The model of the prior against the explicit Kingman chain, by computation (C14).
 
-    For every [2 <= k <= n <= 28] the exact rational value of the model
+    For every [2 <= k <= n <= 24] the exact rational value of the model
     ([ccv] / [tau_expect] on [QNum], linear log domain) equals the node-averaged
     variance / mean computed by [model/Kingman.v].  The bound is part of the statement. *)
 From Coq Require Import List ZArith QArith Bool Arith Lia.
 From TsdateV Require Import lib.Num model.Prior model.Kingman.
 Import ListNotations.
 
-Definition kingman_N0 : nat := 28.
+Definition kingman_N0 : nat := 24.
 
 Definition kingman_check (n : nat) : bool :=
   let km := kingman_table n in
